@@ -12,6 +12,31 @@ from ..ref import model as M
 from ..ref import binary as B
 from ..runner import Check, Violation, guard, outcome, HarnessError
 
+import datetime as _dt
+import decimal as _dec
+import uuid as _uuid
+
+from ..ref import select as S
+
+_UTC = _dt.timezone.utc
+LOGICAL_CASES = [
+    # (schema, conforming values, non-conforming values)
+    ({"type": "int", "logicalType": "date"}, [_dt.date(2020, 2, 29), _dt.date(1, 1, 1), 18000], ["x", 1.5, None, 2**31]),
+    ({"type": "long", "logicalType": "timestamp-millis"}, [_dt.datetime(2000, 1, 1, tzinfo=_UTC), _dt.datetime(1960, 1, 1, 12, 0, 0, 999000, tzinfo=_UTC), 5], ["x", None, 2**63]),
+    ({"type": "long", "logicalType": "timestamp-micros"}, [_dt.datetime(9999, 12, 31, 23, 59, 59, 999999, tzinfo=_UTC), 0], [b"x", 1.5]),
+    ({"type": "long", "logicalType": "local-timestamp-micros"}, [_dt.datetime(1970, 1, 1), 7], ["2020", None]),
+    ({"type": "int", "logicalType": "time-millis"}, [_dt.time(23, 59, 59, 999000), 0], ["x", 2**31]),
+    ({"type": "long", "logicalType": "time-micros"}, [_dt.time(0, 0, 0, 1), 86399999999], [None, 1.5]),
+    ({"type": "string", "logicalType": "uuid"}, [_uuid.UUID(int=5), "00000000-0000-0000-0000-000000000005"], [5, None, b"x"]),
+    ({"type": "bytes", "logicalType": "decimal", "precision": 6, "scale": 2}, [_dec.Decimal("1234.56"), _dec.Decimal("-0.01"), b"\x01"], ["1.5", 1.5, None]),
+    ({"type": "fixed", "name": "D8", "size": 8, "logicalType": "decimal", "precision": 10, "scale": 3}, [_dec.Decimal("1234567.891"), b"\x00" * 8], [b"\x00", "x", 5]),
+    ({"type": "record", "name": "LR", "fields": [{"name": "d", "type": ["null", {"type": "int", "logicalType": "date"}], "default": None},
+                                                  {"name": "ts", "type": {"type": "array", "items": {"type": "long", "logicalType": "timestamp-millis"}}},
+                                                  {"name": "u", "type": {"type": "map", "values": {"type": "string", "logicalType": "uuid"}}}]},
+     [{"d": _dt.date(2020, 1, 1), "ts": [_dt.datetime(2000, 1, 1, tzinfo=_UTC)], "u": {"k": _uuid.UUID(int=1)}}, {"ts": [], "u": {}}],
+     [{"d": "x", "ts": [], "u": {}}, {"ts": [None], "u": {}}, {"ts": [], "u": {"k": 5}}, {"u": {}}]),
+]
+
 POOL = [None, True, 5, 2**40, 1.5, "str", b"by", [1], {"k": 1}, ("int", 5), -1, 0, 1, 0.0, 1.0, False, "", b"", [], {}, "1", "true"]
 MARK = b"\x0c" * 16
 
@@ -124,7 +149,7 @@ class C10(Check):
     )
     assumptions = ["float-typed leaves representable in the target width", "tuples of length != 2 at union positions are not generated"]
     required_labels = ["expected:True", "expected:False", "strict", "raise_errors", "no-tuple-notation", "rejected-by-writer", "accepted-roundtrip",
-                       "mut:wrong-type", "mut:out-of-range", "mut:bool-for-int", "mut:wrong-fixed-size", "mut:unknown-symbol", "mut:non-string-key", "mut:missing-field", "mut:wrong-hint", "strict-missing-nullable", "appending-writer"]
+                       "mut:wrong-type", "mut:out-of-range", "mut:bool-for-int", "mut:wrong-fixed-size", "mut:unknown-symbol", "mut:non-string-key", "mut:missing-field", "mut:wrong-hint", "strict-missing-nullable", "appending-writer", "logical-values"]
     quick = (5000, 1)
     thorough = (10000, 16)
 
@@ -157,6 +182,13 @@ class C10(Check):
 
     def fixed_cases(self, tier):
         base = {"mutation": None, "strict": False, "raise_errors": False, "tuple_notation": True, "parsed": False}
+        for js, good, bad in LOGICAL_CASES:
+            for v in good:
+                for raise_errors in (False, True):
+                    yield dict(base, schema=js, datum=v, raise_errors=raise_errors, logical=True, logical_expect=True, parsed=raise_errors)
+            for v in bad:
+                for raise_errors in (False, True):
+                    yield dict(base, schema=js, datum=v, raise_errors=raise_errors, logical=True, logical_expect=False, mutation="wrong-type")
         opt = {"type": "record", "name": "R", "fields": [{"name": "a", "type": ["null", "int"]}, {"name": "b", "type": "int", "default": 3}]}
         yield dict(base, schema=opt, datum={})
         yield dict(base, schema=opt, datum={}, strict=True)
@@ -180,7 +212,12 @@ class C10(Check):
         if not tn:
             labels.add("no-tuple-notation")
         schema = bincase.fa_schema(fastavro, case)
-        want = B.conforms(node, table, datum, tuple_notation=tn, strict=strict)
+        if case.get("logical"):
+            # logical-type values: the canonical Python type (or the underlying raw value) conforms; oracle given per case
+            labels.add("logical-values")
+            want = case["logical_expect"]
+        else:
+            want = B.conforms(node, table, datum, tuple_notation=tn, strict=strict)
         labels.add(f"expected:{want}")
         if strict and not want and B.conforms(node, table, datum, tuple_notation=tn, strict=False):
             labels.add("strict-missing-nullable")
@@ -210,11 +247,16 @@ class C10(Check):
             fo = io.BytesIO()
             guard("writer-refuses-validated-datum", fastavro.schemaless_writer, fo, schema, datum, **wkw)
             blob = fo.getvalue()
-            try:
-                _, norm, _ = bincase.expected_for(node, table, datum, blob, tuple_notation=tn)
-            except (B.RefError, B.NotConforming):
-                _, norm = B.encode(node, table, datum, tuple_notation=tn)
+            if case.get("logical"):
+                norm = None
+            else:
+                try:
+                    _, norm, _ = bincase.expected_for(node, table, datum, blob, tuple_notation=tn)
+                except (B.RefError, B.NotConforming):
+                    _, norm = B.encode(node, table, datum, tuple_notation=tn)
             got_v = guard("read-own-output", fastavro.schemaless_reader, io.BytesIO(blob), schema)
+            if norm is None:
+                norm = got_v  # logical values: representation is C16's concern; here only "encodes and reads back"
             if not B.same(got_v, norm):
                 raise Violation("validated-datum-roundtrip", f"read back {got_v!r:.150}, expected {norm!r:.150}; {ctx}")
             fo = io.BytesIO()
